@@ -87,7 +87,7 @@ def run_aht(chk, binp, wd):
     transcribed (rewind keeps the file suffix); counterexamples of the latter and simulated behaviours are
     replayed on the real tree."""
     thorough = chk.tier == "thorough"
-    ml, mo = (5, 9) if thorough else (4, 8)
+    ml, mo = (6, 12) if thorough else (5, 10)
     inv = "TypeOK SelfConsistent SyncedOnDisk Refines"
     behaviours = {1: [], 2: [], 3: []}
     for thld in (1, 2, 3):
